@@ -4,7 +4,7 @@ from __future__ import annotations
 import ast
 
 from ..cfg import NORMAL, ALL, walk_local
-from ..facts import (cfg_of, call_name, calls_in, targets_of, guard_atoms,
+from ..facts import (truth_table, cfg_of, call_name, calls_in, targets_of, guard_atoms,
                      is_attr, is_name, enclosing, local_assigns, kwarg,
                      const_value, strip_await, resolve_local, eval_static)
 from ..loader import txt, AnchorError
@@ -68,6 +68,50 @@ def dispatch_table(ctx):
                 ctor = (call_name(c), [txt(a) for a in c.args], rets[-1])
             for k in ks:
                 table[k] = ctor
+    # table-driven branch: `elif key in cls._table: a, b = cls._table[key];
+    # return Ctor(a, b, ...)` with a class-level dict literal
+    for t in walk_local(f.node):
+        if not (isinstance(t, ast.If) and isinstance(t.test, ast.Compare)
+                and len(t.test.ops) == 1
+                and isinstance(t.test.ops[0], ast.In)
+                and txt(t.test.left) == var
+                and isinstance(t.test.comparators[0], ast.Attribute)):
+            continue
+        attr = t.test.comparators[0]
+        fa = sc.find_attr(attr.attr)
+        if fa is None or not isinstance(fa[1], ast.Dict):
+            continue
+        unpack = {}
+        whole = None
+        for s_ in t.body:
+            if isinstance(s_, ast.Assign) and isinstance(
+                    s_.value, ast.Subscript) and txt(s_.value.value) == \
+                    txt(attr) and txt(s_.value.slice) == var:
+                tg = s_.targets[0]
+                if isinstance(tg, ast.Tuple):
+                    for i, e in enumerate(tg.elts):
+                        unpack[txt(e)] = i
+                else:
+                    whole = txt(tg)
+        rets = [s_ for s_ in t.body if isinstance(s_, ast.Return)]
+        if not rets or not isinstance(rets[-1].value, ast.Call):
+            continue
+        c = rets[-1].value
+        for k, v in zip(fa[1].keys, fa[1].values):
+            okk, kv = const_value(k)
+            if not (okk and isinstance(kv, bytes)):
+                continue
+            args = []
+            for a in c.args:
+                ta = txt(a)
+                if ta in unpack and isinstance(v, ast.Tuple) and \
+                        unpack[ta] < len(v.elts):
+                    args.append(txt(v.elts[unpack[ta]]))
+                elif whole is not None and ta == whole:
+                    args.append(txt(v))
+                else:
+                    args.append(ta)
+            table[kv] = (call_name(c), args, rets[-1])
     # dict-dispatch idiom
     for d in walk_local(f.node):
         if isinstance(d, ast.Dict):
@@ -262,11 +306,11 @@ def r133(ctx) -> None:
             'all criteria')
     oc = ctx.proj.cls(SEARCH, 'OrSearchCriteria')
     m = oc.own_method('matches')
-    rets = [r for r in walk_local(m.node) if isinstance(r, ast.Return)]
-    ok = len(rets) == 1 and isinstance(rets[0].value, ast.BoolOp) and \
-        isinstance(rets[0].value.op, ast.Or) and \
-        sorted(txt(v.func.value) for v in rets[0].value.values
-               if isinstance(v, ast.Call)) == ['self.left', 'self.right']
+    # truth table over the two operand calls
+    opcalls = sorted({txt(c) for c in calls_in(m.node, 'matches')
+                      if txt(c.func.value) in ('self.left', 'self.right')})
+    tt = truth_table(m.node, opcalls) if len(opcalls) == 2 else None
+    ok = tt is not None and all(tt[v] == (v[0] or v[1]) for v in tt)
     R.check(ok, m, m.node, 'OrSearchCriteria.matches = left or right',
             'OR is not the disjunction of its two operands')
     ic = ctx.proj.cls(SEARCH, 'InverseSearchCriteria')
@@ -360,6 +404,16 @@ def r135(ctx) -> None:
             for _, src in local_assigns(p, v.value.id):
                 if src is not None and 'self.all_criteria' in txt(src) and \
                         'SequenceSetSearchCriteria' in txt(src):
+                    good = True
+            # loop idiom: for c in self.all_criteria: if isinstance(c, S):
+            # return c.seq_set
+            for l in enclosing(p.node, r, (ast.For,)):
+                if txt(l.target) == v.value.id and \
+                        txt(l.iter) == 'self.all_criteria' and any(
+                            isinstance(t, ast.If) and
+                            f'isinstance({v.value.id}, '
+                            f'SequenceSetSearchCriteria)' in txt(t.test)
+                            for t in enclosing(p.node, r, (ast.If,))):
                     good = True
         ok = ok and good
     R.check(ok, p, p.node, 'sequence_set comes from self.all_criteria or is '
